@@ -953,6 +953,8 @@ class Interp:
             return o
         if isinstance(o, dict) and name in ("get", "items", "keys", "values"):
             return Builtin("dict." + name, o)
+        if isinstance(o, list) and name in ("append", "extend"):
+            return Builtin("list." + name, o)
         raise Unsupported(f"attribute .{name} of {type(o).__name__}", node)
 
     def class_attr(self, cls: ClassInfo, name, obj, node):
@@ -1130,6 +1132,12 @@ class Interp:
             if n == "arr.flatten" and isinstance(o, Arr):
                 return Arr(o.flat())
             return o
+        if n == "list.append":
+            f.obj.append(args[0])
+            return None
+        if n == "list.extend":
+            f.obj.extend(list(args[0]))
+            return None
         if n == "dict.get":
             return f.obj.get(*args)
         if n == "dict.items":
